@@ -35,5 +35,17 @@ CLAIMED = {
    text="Proof level for: the processor is only invoked while the consumer is running (not stopping, start Deferred unfired) and not shutting down; start() refuses a second start; every entry point guarantees that it does not end the run or clear the stopping flag while stop() is in progress (the rely clause stop()'s re-entrancy safety rests on). stop()/shutdown() themselves are checked by the bounded scenario stand-in (labelled, not proof).",
    note="Consumer.stop() was not brought within the symbolic executor's reach (500+ paths); see evidence bounded_units.",
    ref='DESIGN.md section 8 C13, section 12'),
+ 'C19': dict(
+   text="Proof level for the batching units of Producer: send_messages adds exactly the message count and the byte total of the non-null messages and queues the request behind the earlier ones with a fresh unfired Deferred; _check_send_batch dispatches iff a configured threshold is met; _send_batch dispatches only when no batch is in flight, the queue is non-empty and the producer is not stopping, and resets queue and counters; stop() sets the stopping flag before it cancels anything. Cancellation accounting (_cancel_send_messages) and the time-limit sentence are covered by the bounded scenario stand-in.",
+   note="LoopingCall ticking every period is Twisted's (assumed). Trusted: pyvc heap/re-entrancy encoding.",
+   ref='DESIGN.md section 8 C19, section 12'),
+ 'C09': dict(
+   text="Proof level for the retry discipline units: _complete_batch_send resets attempts and interval and clears the in-flight marker; _check_retry_payloads schedules a retry only while attempts < max, with the current interval as delay, then multiplies the interval by 1.20205; _do_retry counts the attempt before the response handler can run and issues exactly one request; _send_batch never dispatches while a batch is unresolved; send_messages queues in submission order.",
+   note="'Only failed payloads are retried' for a TOTAL failure of a retry is a known finding (see KNOWN_FINDINGS.txt); per-partition order inside create_message_set is not under contract. Floats as reals.",
+   ref='DESIGN.md section 8 C09, section 12'),
+ 'C01': dict(
+   text="Proof level for the clauses that decide what a send Deferred may be fired with: every call of _deliver_result inside _check_retry_payloads is proved to pass ack_ok(result) - None only with acks=0, an error-free ProduceResponse, or a Failure, never a bare exception (the defect fixed in 07da27c); send_messages returns a fresh unfired Deferred. The remaining branches of _handle_send_response (polymorphic result) are covered by the bounded scenario stand-in.",
+   note="Relative to the client contract (C07) and a broker that answers each partition sent; not an end-to-end statement about a real broker.",
+   ref='DESIGN.md section 8 C01, section 12'),
 }
 NOT_APPLICABLE = {}
